@@ -40,6 +40,9 @@ func (m *Recipient) AddRecipient(recipient *Recipient) error {
 	if len(recipient.recipients) > 0 {
 		return errors.New("cose/cose: Recipient.AddRecipient: should not have nested recipients")
 	}
+	if m.context == "Rec_Recipient" {
+		return errors.New("cose/cose: Recipient.AddRecipient: should not add to a nested recipient")
+	}
 
 	recipient.context = "Rec_Recipient"
 	m.recipients = append(m.recipients, recipient)
